@@ -271,3 +271,39 @@ def all_or_nothing(pos: int, n: int, bad: int, s: str) -> str:
         return verdict('')
     return verdict(fail(PROP, 'ALL-OR-NOTHING', 'body %r with undecodable packet %r yielded %d packets' % (
         body, _BAD[bad], len(got.packets))))
+
+
+@cond(quick=dict(timeout=120), thorough=dict(timeout=300))
+def server_all_or_nothing(fl: int, pos: int, bad: int, form: bool) -> str:
+    """
+    pre: 0 <= fl <= 1 and 0 <= pos <= 3 and 0 <= bad < len(_BAD)
+    post: _ == ''
+    """
+    # the same clause observed where it matters: a POST whose body has one undecodable packet fires no message event at all
+    from vf.rt import untraced
+    return verdict(untraced(_server_aon, fl, pos, bad, form))
+
+
+def _server_aon(fl, pos, bad, form):
+    from vf.props.common import mk
+    sut = mk(fl, async_handlers=False)
+    try:
+        sut.open('polling')
+        sut.settle()
+        sid = sut.sids()[0]
+        good = ['4m%d' % i for i in range(3)]
+        parts = good[:pos] + [_BAD[bad]] + good[pos:]
+        body = '\x1e'.join(parts)
+        n0 = len(sut.events)
+        if form:
+            r = sut.post(sid, 'd=' + urllib.parse.quote(body), extra='&j=0')
+        else:
+            r = sut.post(sid, body)
+        sut.settle()
+        ev = [a for k, s, a in sut.events[n0:] if k == 'message']
+        if ev:
+            return fail(PROP, 'ALL-OR-NOTHING', 'POST body %r with undecodable packet %r fired message events %r' % (body, _BAD[bad], ev),
+                        flavour=sut.flavour)
+        return ''
+    finally:
+        sut.close()
